@@ -101,6 +101,10 @@ class ResponseHandler(BaseProtocol, DataQueue[tuple[RawResponseMessage, StreamRe
         transport = self.transport
         if transport is not None:
             transport.close()
+            if transport.get_write_buffer_size():
+                # A graceful close waits for the unsent bytes to be flushed,
+                # which never happens if the peer stopped reading.
+                transport.abort()
             self.transport = None
             self._payload = None
             self._drop_timeout()
